@@ -69,6 +69,7 @@ type vfC17MRig struct {
 
 	// per id history, used to name a violation precisely
 	tookOver    map[string]bool // id had an accepted takeover in this case
+	takingOver  map[string]bool // a takeover CONNECT for the id has been sent (answer possibly outstanding)
 	reconnected map[string]bool // id was closed and connected again in this case
 	closedOnce  map[string]bool
 	cleanOf     map[string]bool
@@ -158,10 +159,11 @@ func (r *vfC17MRig) capViolation() {
 	key := "more-connected-clients-than-maxAllowedConnection"
 	if len(missing) > 0 {
 		id := missing[0]
+		// a takeover that is still being answered counts: the broker may already have processed it
 		switch {
-		case r.tookOver[id] && r.cleanOf[id]:
+		case (r.tookOver[id] || r.takingOver[id]) && r.cleanOf[id]:
 			key = "clean-session-takeover: new connection dropped from the registry (socket left open) once the old connection is torn down, then a further client is admitted"
-		case r.tookOver[id]:
+		case r.tookOver[id] || r.takingOver[id]:
 			key = "persistent-session-takeover: new connection dropped from the registry while still connected"
 		case r.reconnected[id] && r.cleanOf[id]:
 			key = "clean-session-reconnect: new connection dropped from the registry (socket left open) by the previous connection's teardown, then a further client is admitted"
@@ -278,7 +280,7 @@ func TestVerifC17Mqtt(t *testing.T) {
 		if withAuth {
 			spec.Rules = []*Rule{{When: &When{PacketType: Connect}, Pipeline: "vf-auth"}}
 		}
-		r := &vfC17MRig{cap: capN, held: map[string]*vfC17Cli{}, tookOver: map[string]bool{}, reconnected: map[string]bool{},
+		r := &vfC17MRig{cap: capN, held: map[string]*vfC17Cli{}, tookOver: map[string]bool{}, takingOver: map[string]bool{}, reconnected: map[string]bool{},
 			closedOnce: map[string]bool{}, cleanOf: map[string]bool{}}
 		r.cond = sync.NewCond(&r.mu)
 		r.b = newBroker(spec, newStorage(nil), r, func(string, string) ([]string, error) { return nil, nil })
@@ -429,6 +431,9 @@ func TestVerifC17Mqtt(t *testing.T) {
 				cli := &vfC17Cli{id: o.ID, seq: r.seq, clean: clean, conn: conn}
 				if r.closedOnce[o.ID] {
 					r.reconnected[o.ID] = true
+				}
+				if o.Kind == "takeover" {
+					r.takingOver[o.ID] = true
 				}
 				r.cleanOf[o.ID] = clean
 				r.mu.Unlock()
